@@ -80,6 +80,15 @@ type MapObject struct {
 	name    string
 	typ     *types.Map
 	entries []*MapEntry
+	fwd     *MapObject // recycled into another object (see recycleMap)
+	created *Term      // guard of the allocation
+}
+
+func (m *MapObject) resolve() *MapObject {
+	for m.fwd != nil {
+		m = m.fwd
+	}
+	return m
 }
 
 type MapT struct{ M *MapObject }
@@ -156,7 +165,7 @@ func targetKey(t Target) string {
 	case AddrT:
 		return fmt.Sprintf("A%d%s", x.Obj.id, pathKey(x.P))
 	case MapT:
-		return fmt.Sprintf("M%d", x.M.id)
+		return fmt.Sprintf("M%d", x.M.resolve().id)
 	case SliceT:
 		return fmt.Sprintf("S%d+%d/%d", x.Arr.id, x.Off, x.Cap)
 	case FuncT:
